@@ -222,6 +222,31 @@ def gen_frag(rng, tier):
     return {'kind': 'frag', 'cfg': cfg, 'calls': calls}
 
 
+def gen_fragreject(rng, tier):
+    """A rejected (lower) decode time, then writes at every position relative to it and to the last accepted one, with
+    flushes before / after the rejection: the rejected value must leave no trace in later decisions or base times."""
+    out = []
+    for L in (3000, 9000):
+        for r in (0, L - 1, L - 1500):
+            for fb in (False, True):
+                for fa in (False, True):
+                    for x in (r, r + 1, (r + L) // 2, L - 1, L, L + 3000):
+                        cfg = {'vc': 'h264', 'w': 640, 'h': 480, 'timescale': 90000, 'fragms': 100, 'via': 'config', 'unit': 1, 'unit1': True,
+                               'judge_config': True, 'w32': W30, 'i32': W30, 'sps': SPS_A, 'pps': PPS_A,
+                               'facets': {'bytes': True, 'timing': True, 'tree': True, 'raw': False}}
+                        def w(t, sync=False):
+                            return {'op': 'fw', 'pts': t, 'dts': t, 'data': pad(rng, 4), 'sync': sync}
+                        calls = [w(0, True), w(L)]
+                        if fb:
+                            calls.append({'op': 'ff'})
+                        calls.append(w(r))
+                        if fa:
+                            calls.append({'op': 'ff'})
+                        calls += [w(x), w(max(L, x) + 3000), {'op': 'ff'}, w(max(L, x) + 6000), {'op': 'ff'}, {'op': 'fi'}]
+                        out.append({'kind': 'frag', 'cfg': cfg, 'calls': calls})
+    return out
+
+
 def gen_sink_histories(rng, tier, mode):
     out = []
     combos = [('h264', 'none', True, False), ('h264', 'none', False, False), ('h264', 'aac', True, False),
@@ -1157,6 +1182,8 @@ def generate(kind, n, seed, tier):
         return gen_widths(rng, tier)
     if kind == 'fraginit':
         return gen_fraginit(rng, tier)
+    if kind == 'fragreject':
+        return gen_fragreject(rng, tier)
     if kind == 'meta':
         return gen_meta(rng, tier)
     if kind == 'metalayout':
